@@ -262,6 +262,8 @@ def rule_R5(ck):
 
 def run(ck):
     ck.run_rule("G4", "the parse tree is read-only during compilation", 5, treeimm.rule_G4)
+    ck.run_rule("G4.re", "an expression node resolved again at another '.' gives that copy's value (each copy of a repeated body sees its own '.')", 15, treeimm.rule_reresolve)
+    ck.run_rule("G4.def", "deferred values (the image of a block, lengths, polynomials) are never updated in place", 30, treeimm.rule_deferred_immutable)
     ck.run_rule("C16.R2", ".repeat: iteration addresses, shared body, state copy, concatenation", 4, rule_R2)
     ck.run_rule("C16.R3", ".once: threshold and counter increment before the body", 3, rule_R3)
     ck.run_rule("C16.R3p", "included file identity: relative paths are joined and normalised", 2, rule_paths)
